@@ -102,6 +102,10 @@ class SccCaptionText:
     self._text = self._text[:-1]
     self._cursor = max(self._cursor - 1, 0)
 
+  def truncate(self):
+    """Remove the characters from the cursor position to the end of the text"""
+    self._text = self._text[:max(self._cursor, 0)]
+
   def get_style_properties(self) -> dict:
     """Sets the style properties map"""
     return self._style_properties
